@@ -101,6 +101,23 @@ def harvest_literals(repo):
     return sorted(lits)
 
 
+def harvest_paths(repo, known):
+    """String literals of the httpserver sources that look like URL patterns and are not in the route table (a
+    registration the translator could not name, e.g. an inline closure): tried with every method, handler unknown."""
+    out = []
+    d = os.path.join(repo, "core", "internal", "httpserver")
+    for fn in sorted(os.listdir(d)) if os.path.isdir(d) else []:
+        if not fn.endswith(".go") or fn.endswith("_test.go"):
+            continue
+        src = open(os.path.join(d, fn), errors="replace").read()
+        for m in re.finditer(r'"(/[^"\\\s]*)"', src):
+            pat = m.group(1)
+            if pat not in known and pat not in [p for _, p, _ in out] and len(pat) < 120:
+                for method in ("GET", "POST", "DELETE"):
+                    out.append((method, pat, "?"))
+    return out
+
+
 # ---------------------------------------------------------------------------------------------------
 # configurations
 # ---------------------------------------------------------------------------------------------------
@@ -397,7 +414,8 @@ def param_pool(rng, cfg, lits, section, extra=6):
     def add(v, cl):
         if v is not None and (v, cl) not in out:
             out.append((v, cl))
-    names = list(cfg.get(section, {})) if section else []
+    names = list(cfg.get(section, {})) if section else \
+        [n for sec in ("sasl", "notifier", "client-profile", "cluster", "tls") for n in list(cfg.get(sec, {}))[:2]]
     for n in names:
         add(n, "configured")
         add(n.upper(), "case")
